@@ -54,9 +54,9 @@ var props = map[string]propMeta{
 	},
 	"C05": {
 		Level:       "exploration",
-		Rule:        "seeded runs with one sequential publisher (exact order) or 2-6 concurrent publishers (per-goroutine and real-time order, wire order = identifier order), both levels, breaks and failed connects; family wrap: constructed images with the pending ranges at the 14-bit wrap-around, 2-3 incarnations, new publishes queued behind the resumed ones; oracles over the wire log: consecutive identifiers at first appearance, resend order, DUP exactly on retransmissions of completely written packets, completion order." + distinctRule + " non-trivial = a fault fired and a retransmission carried DUP",
+		Rule:        "seeded runs with one sequential publisher (exact order) or 2-6 concurrent publishers (per-goroutine and real-time order, wire order = identifier order), both levels, breaks and failed connects; family wrap: constructed images with the pending ranges at the 14-bit wrap-around, 2-3 incarnations, new publishes queued behind the resumed ones; oracles over the wire log: consecutive identifiers at first appearance, resend order, DUP exactly on retransmissions of completely written packets, completion order. family restarts: 3-4 incarnations with stops at drawn steps and transfers of both levels open across them (PUBRELs stored by one incarnation, new records by the next, in half of the runs with the final acknowledgements withheld until the last incarnation); oracle restart-resend-incomplete: the first connection of an adopted client carries every transfer that was unacknowledged at the stop." + distinctRule + " non-trivial = a fault fired and a retransmission carried DUP",
 		Assumptions: flowAssumptions,
-		Probes:      []string{"resend_carried_dup", "retransmitted", "pending_range_straddles_wrap"},
+		Probes:      []string{"resend_carried_dup", "retransmitted", "pending_range_straddles_wrap", "second_restart_checked"},
 		QuickS:      20, ThoroughS: 300,
 	},
 	"C04": {
